@@ -30,6 +30,7 @@ type Tape struct {
 	Conf          gk.ConfModel  `json:"conf"`
 	Cred          string        `json:"cred"` // keytab | password
 	AssumePreauth bool          `json:"assume_preauth,omitempty"`
+	UserKvno      int           `json:"user_kvno,omitempty"` // key version of the keytab user (0 = 5); beyond 8 bits the keytab carries it in its 32-bit trailer
 	DisableFAST   bool          `json:"disable_fast,omitempty"`
 	Policy        refkdc.Policy `json:"policy"`
 	Salt          string        `json:"salt,omitempty"`
@@ -122,6 +123,9 @@ func Gen(caseID, tier string) (json.RawMessage, error) {
 	}
 	c.DomainRealm = map[string]string{".sim.test": "SIM.TEST"}
 	tp.AssumePreauth = r.Chance(1, 5)
+	if r.Chance(1, 3) {
+		tp.UserKvno = r.PickInt(1, 255, 256, 300, 65537)
+	}
 	tp.DisableFAST = r.Chance(1, 3)
 	p := &tp.Policy
 	p.RequirePreauth = r.Chance(1, 2)
